@@ -4,11 +4,16 @@ from abc import abstractmethod, ABCMeta
 import six
 from typing import Optional
 
+from trashcli.fs import FsMethods
 from trashcli.fstab.volume_of import VolumeOf
 from trashcli.fstab.volumes import Volumes
 from trashcli.lib.environ import Environ
 from trashcli.lib.trash_dirs import (
     volume_trash_dir1, volume_trash_dir2, home_trash_dir)
+from trashcli.trash_dirs_scanner import (
+    TopTrashDirRules,
+    top_trash_dir_invalid_because_not_sticky,
+    top_trash_dir_invalid_because_parent_is_symlink)
 
 
 @six.add_metaclass(ABCMeta)
@@ -58,10 +63,13 @@ class TrashDirectories1:
                  volumes,  # type: Volumes
                  uid,  # type: int
                  environ,  # type: Environ
+                 top_trash_dir_rules=None,  # type: Optional[TopTrashDirRules]
                  ):
         self.volumes = volumes
         self.uid = uid
         self.environ = environ
+        self.top_trash_dir_rules = (top_trash_dir_rules or
+                                    TopTrashDirRules(FsMethods()))
 
     def all_trash_directories(self):
         volumes_to_check = self.volumes.list_mount_points()
@@ -69,6 +77,15 @@ class TrashDirectories1:
             yield path1, volume1
         for volume in volumes_to_check:
             for path1, volume1 in volume_trash_dir1(volume, self.uid):
-                yield path1, volume1
+                if self._is_secure(path1):
+                    yield path1, volume1
             for path1, volume1 in volume_trash_dir2(volume, self.uid):
                 yield path1, volume1
+
+    def _is_secure(self, top_trash_dir_path):
+        # same rule trash-list, trash-empty and trash-rm apply: never use
+        # $topdir/.Trash/$uid when $topdir/.Trash is a symlink or not sticky
+        result = self.top_trash_dir_rules.valid_to_be_read(top_trash_dir_path)
+        return result not in (
+            top_trash_dir_invalid_because_not_sticky,
+            top_trash_dir_invalid_because_parent_is_symlink)
